@@ -48,7 +48,7 @@ def used_ids(sc, ops):
         grew = False
         for a in list(args):
             ad = sc["args"].get(a, {})
-            for b in ([ad["view_of"]] if "view_of" in ad else []) + list(ad.get("compose", {}).values()):
+            for b in ([ad["view_of"]] if "view_of" in ad else []) + (model.compose_refs(ad["compose"]) if "compose" in ad else []):
                 if b not in args:
                     args.add(b)
                     grew = True
